@@ -14,7 +14,7 @@ LEVEL_TEXT = ("Held on every (configuration, string, only_last) case of this run
               "foreign characters at every offset, lengths 0..3k+2). Sampled, with floors per rejection reason.")
 LEVEL_NOTE = ("GC bounds are drawn as (2j+1)/(2k) or from {0, 1/4, 1/2, 3/4, 1}, so float rounding of bound*k can never flip an "
               "integer comparison and any conforming implementation agrees with the rational oracle (no false alarms).")
-PLAN = {"quick": dict(shards=16, budget=100), "thorough": dict(shards=32, budget=300)}
+PLAN = {"quick": dict(shards=16, budget=100), "thorough": dict(shards=16, budget=300)}
 RULE = ("LocalBioFilter(k, run, gc, motifs).valid(s, only_last) for k = 1..10 (15% of the configurations 11..20), run limit None/0..k, GC ranges incl. degenerate, "
         "inverted and asymmetric, motif sets incl. palindromic and self-overlapping motifs; strings of length 0, 1, k-1, k, k+1, "
         "2k, 3k+2 with a G+C bias sweeping the bounds, injected runs (limit, limit+1), motif / reverse complement at every "
